@@ -12,6 +12,7 @@ use vm_core::{AdviceInjector, DebugOptions, Felt, Program, StackInputs, StarkFie
 
 static HOOK: Once = Once::new();
 thread_local! {
+    static IN_CATCH: std::cell::Cell<u32> = std::cell::Cell::new(0);
     pub static LAST_PANIC: std::cell::RefCell<String> = std::cell::RefCell::new(String::new());
 }
 
@@ -27,6 +28,9 @@ pub fn quiet_panics() {
             } else {
                 "<non-string panic>".to_string()
             };
+            if IN_CATCH.with(|c| c.get()) == 0 {
+                eprintln!("HARNESS PANIC: {} @ {}", msg, loc);
+            }
             LAST_PANIC.with(|p| *p.borrow_mut() = format!("{} @ {}", msg, loc));
         }));
     });
@@ -34,7 +38,10 @@ pub fn quiet_panics() {
 
 pub fn catch<T>(f: impl FnOnce() -> T) -> Result<T, String> {
     quiet_panics();
-    match catch_unwind(AssertUnwindSafe(f)) {
+    IN_CATCH.with(|c| c.set(c.get() + 1));
+    let r = catch_unwind(AssertUnwindSafe(f));
+    IN_CATCH.with(|c| c.set(c.get() - 1));
+    match r {
         Ok(v) => Ok(v),
         Err(_) => Err(LAST_PANIC.with(|p| p.borrow().clone())),
     }
